@@ -80,6 +80,8 @@ def recreate_branches(data, skip_keys=None):
                 new_data[key] = recreate_branches(val, skip_keys)
     elif isinstance(data, list):
         new_data = [recreate_branches(v, skip_keys) for v in data]
+    elif type(data) is tuple:
+        new_data = tuple(recreate_branches(v, skip_keys) for v in data)
     return new_data
 
 
